@@ -101,6 +101,10 @@ def check_group_eval(chk) -> bool:
     env = dict(stubs)
     env.update(module_callables(repo, P, outer=env))  # helpers a refactoring extracted are interpreted, not pinned
     bad: Dict[str, List[str]] = {}
+    from sa.fragment import coverage
+
+    _cov = coverage()
+    cov = _cov.__enter__()
     try:
         for tag, fact, keys in GROUP_CASES:
             atoms = [_atom(i, *k) for i, k in enumerate(keys)]
@@ -132,8 +136,11 @@ def check_group_eval(chk) -> bool:
     except Unknown as ex:
         chk.ok("group-eval", fi.where, f"group_atoms is not evaluable on representative atom lists ({str(ex)[:80]}): the pinned-form rules decide")
         return False
+    finally:
+        _cov.__exit__(None, None, None)
     with evidence(chk, "identity-key-model", "group-runs"):
         _group_verdicts(chk, fi, bad)
+        report_silent_exits(chk, "group-runs", [fi] + new_helpers(repo, P), cov, "atom lists", {"continue": "atoms are left out of their residue", "break": "the grouping ends before the last atom", "return": "the structure is returned before all atoms are grouped"})
     return True
 
 
@@ -360,6 +367,10 @@ def check_v1_reader_eval(chk) -> bool:
     repo = chk.repo
     sp = spec("pdb_columns.json")
     fi = repo.func(P, "parse_pdb")
+    from sa.fragment import coverage
+
+    _cov = coverage()
+    cov = _cov.__enter__()
     try:
         rd = V1Reader(repo)
         classes = record_classes(sp)
@@ -400,8 +411,11 @@ def check_v1_reader_eval(chk) -> bool:
     except Unknown as ex:
         chk.ok("pdb-reader-eval", fi.where, f"parse_pdb is not evaluable on representative lines ({str(ex)[:80]}): the pinned-form rules decide")
         return False
+    finally:
+        _cov.__exit__(None, None, None)
     with evidence(chk, "pdb-record-loop", "pdb-atom-branch", "pdb-decoding", "pdb-atom-record"):
         _v1_verdicts(chk, repo, fi, rd, classes, atom_line, wrong, stops, raises, models, default_model, dec)
+        report_silent_exits(chk, "pdb-atom-branch", [fi] + new_helpers(repo, P), cov, "record lines (one per record class, fully populated ATOM / HETATM lines among them)", {"continue": "the line is skipped: an atom record of the file is not among the atoms read", "break": "reading stops there: the atom records that follow are not read", "return": "reading ends there"})
     return True
 
 
@@ -464,6 +478,10 @@ def check_model_selection_eval(chk) -> bool:
         return False
     cases: Dict[str, List[str]] = {"requested": [], "default": [], "absent": [], "pass": [], "reader": []}
     n = 0
+    from sa.fragment import coverage
+
+    _cov = coverage()
+    cov = _cov.__enter__()
     try:
         for is_cif in (True, False):
             for tag, models in MODEL_FILES:
@@ -510,7 +528,10 @@ def check_model_selection_eval(chk) -> bool:
     except Unknown as ex:
         chk.ok("model-selection-eval", fi.where, f"read_3d_structure is not evaluable on representative files ({str(ex)[:80]}): the symbolic path rule decides")
         return False
+    finally:
+        _cov.__exit__(None, None, None)
     with evidence(chk, "model-selection"):
+        report_silent_exits(chk, "model-selection", [fi] + new_helpers(repo, P), cov, "(file, requested model) cases", {"continue": "atoms or models are left out", "break": "the selection ends early", "return": "a structure is returned without the selection the statement describes"})
         chk.expect(not cases["requested"], "model-selection", fi.where, "evaluated: a requested model that is present selects exactly the atoms with that model number, in file order", "a requested model that is present does not select exactly its atoms: " + "; ".join(cases["requested"][:2]), K(fi, "select-requested"), found=cases["requested"][:6])
         chk.expect(not cases["default"], "model-selection", fi.where, "evaluated: without a requested model the first model of the file (order of first appearance) is selected", "without a requested model the first model of the file is not what is returned: " + "; ".join(cases["default"][:2]), K(fi, "select-default"), found=cases["default"][:6])
         chk.expect(not cases["absent"], "model-selection", fi.where, "evaluated: a requested model that is absent falls back to the first model of the file", "a requested model that is absent does not fall back to the first model: " + "; ".join(cases["absent"][:2]), K(fi, "select-absent"), found=cases["absent"][:6])
@@ -604,6 +625,10 @@ def check_format_detection_eval(chk) -> bool:
     bad_cif: List[str] = []
     bad_pdb: List[str] = []
     n = 0
+    from sa.fragment import coverage
+
+    _cov = coverage()
+    cov = _cov.__enter__()
     try:
         call = func_callable(repo, P, fi.node, env)
         for tag, lines, want in format_cases(sp):
@@ -630,7 +655,10 @@ def check_format_detection_eval(chk) -> bool:
         else:
             chk.error("format-detection", fi.where, f"is_cif is not evaluable on representative files ({str(ex)[:80]}) and not in its pinned form")
         return True
+    finally:
+        _cov.__exit__(None, None, None)
     with evidence(chk, "format-detection"):
+        report_silent_exits(chk, "format-detection", [fi] + new_helpers(repo, P), cov, "files", {"continue": "lines are passed over", "break": "the scan ends before the atom_site items are seen", "return": "the format is decided before the atom_site items are seen"})
         chk.expect(
             not bad_cif,
             "format-detection",
@@ -641,4 +669,221 @@ def check_format_detection_eval(chk) -> bool:
             found=bad_cif[:6],
         )
         chk.expect(not bad_pdb, "format-detection", fi.where, "evaluated: a PDB file (also one mentioning _atom_site inside a REMARK) and an empty file are not mmCIF", "a PDB file is not recognised as PDB: " + "; ".join(bad_pdb[:2]), K(fi, "detect-pdb"), found=bad_pdb[:6])
+    return True
+
+
+# --------------------------------------------------------------------------------------------------------------------
+# what the representatives did not reach (round 4)
+# --------------------------------------------------------------------------------------------------------------------
+def new_helpers(repo, module: str) -> List[Any]:
+    """FuncInfos of the top-level functions the reference copy does not have (what module_callables interprets by default)."""
+    m = repo.module(module)
+    ref = repo.reference.get(module) if hasattr(repo, "reference") else None
+    return [fi for q, fi in m.funcs.items() if "." not in q and ref is not None and q not in ref.funcs]
+
+
+def report_silent_exits(chk, rule: str, fis, cov: set, what: str, consequence: Dict[str, str]) -> int:
+    """Evaluation on representatives decides the classes it ran.  A data-dependent `continue` / `break` / `return` that none of them
+    took is an outcome for *other* inputs - records that are skipped, a loop that ends early, a result returned before the work is
+    done - chosen by a condition on the data: by closed-world reasoning (the statement quantifies over all well-formed inputs, and
+    the representatives cover the classes it names) that is a violation, reported with the condition.  Returns the number reported."""
+    from sa.fragment import unreached_exits
+
+    n = 0
+    for fi in fis:
+        data = [a.arg for a in fi.node.args.args[:1]]
+        for st, guard in unreached_exits(fi.node, cov, data=data):
+            kind = {"Continue": "continue", "Break": "break", "Return": "return"}[type(st).__name__]
+            n += 1
+            if n > 2:
+                continue
+            chk.violation(
+                rule,
+                fi.site(st),
+                f"`{norm(st)[:50]}` under the condition `{guard[:90]}` is taken by none of the representative {what}: for input that satisfies the condition {consequence.get(kind, 'the outcome differs')} - silently, "
+                "and the condition depends on the data, not on the request",
+                K(fi, f"silent-exit:{kind}:{guard[:40]}"),
+                found=guard[:120],
+            )
+    return n
+
+
+# --------------------------------------------------------------------------------------------------------------------
+# parse_cif: atom_site decoding, evaluated (round 4)
+# --------------------------------------------------------------------------------------------------------------------
+class _Category:
+    _folder_stub = True
+
+    def __init__(self, attrs: List[str], rows: List[List[str]]):
+        self._attrs, self._rows = list(attrs), [list(r) for r in rows]
+
+    def getAttributeList(self):
+        return list(self._attrs)
+
+    def getRowList(self):
+        return [list(r) for r in self._rows]
+
+    def getRowCount(self):
+        return len(self._rows)
+
+    def hasAttribute(self, a):
+        return a in self._attrs
+
+    def __bool__(self):
+        return True
+
+    def __len__(self):
+        return len(self._rows)
+
+
+class _Container:
+    _folder_stub = True
+
+    def __init__(self, cats: Dict[str, _Category]):
+        self._cats = cats
+
+    def getObj(self, name):
+        return self._cats.get(name)
+
+    def exists(self, name):
+        return name in self._cats
+
+    def getObjNameList(self):
+        return list(self._cats)
+
+
+CIF_FULL = {
+    "group_PDB": "ATOM", "id": "7", "type_symbol": "C", "label_atom_id": "C4'", "label_alt_id": ".", "label_comp_id": "G", "label_asym_id": "AA", "label_entity_id": "3", "label_seq_id": "41",
+    "pdbx_PDB_ins_code": "C", "Cartn_x": "11.250", "Cartn_y": "-22.500", "Cartn_z": "33.125", "occupancy": "0.50", "B_iso_or_equiv": "20.00", "pdbx_formal_charge": "?", "auth_seq_id": "-12", "auth_comp_id": "GTP",
+    "auth_asym_id": "B", "auth_atom_id": "C4'", "pdbx_PDB_model_num": "2",
+}
+
+
+def cif_row_cases() -> List[Tuple[str, str, Dict[str, str], Optional[Dict[str, Any]]]]:
+    """(description, fact it isolates, the items of one atom_site row, the atom expected - None: the row has no identity and is skipped)"""
+    full = dict(CIF_FULL)
+    label = ("ResidueLabel", "AA", 41, "G")
+    auth = ("ResidueAuth", "B", -12, "C", "GTP")
+    base = {"entity_id": "3", "label": label, "auth": auth, "model": 2, "name": "C4'", "x": 11.25, "y": -22.5, "z": 33.125, "occupancy": 0.5}
+
+    def case(tag, fact, change: Dict[str, Optional[str]], want_change: Optional[Dict[str, Any]]):
+        row = {k: v for k, v in full.items() if change.get(k, "") is not None}
+        row.update({k: v for k, v in change.items() if v is not None})
+        return (tag, fact, row, None if want_change is None else {**base, **want_change})
+
+    no_ic = ("ResidueAuth", "B", -12, None, "GTP")
+    return [
+        case("a row with a distinct value in every item (negative author number, insertion code, model 2)", "items", {}, {}),
+        case("insertion code `?`", "null", {"pdbx_PDB_ins_code": "?"}, {"auth": no_ic}),
+        case("insertion code `.`", "null", {"pdbx_PDB_ins_code": "."}, {"auth": no_ic}),
+        case("no pdbx_PDB_ins_code item", "optional", {"pdbx_PDB_ins_code": None}, {"auth": no_ic}),
+        case("occupancy `?`", "null", {"occupancy": "?"}, {"occupancy": None}),
+        case("occupancy `.`", "null", {"occupancy": "."}, {"occupancy": None}),
+        case("no occupancy item", "optional", {"occupancy": None}, {"occupancy": None}),
+        case("label_seq_id `.` (hetero group / water: no label number)", "identity", {"label_seq_id": "."}, {"label": None}),
+        case("label_seq_id `?`", "identity", {"label_seq_id": "?"}, {"label": None}),
+        case("no author items (label identity only)", "absent", {"auth_seq_id": None, "auth_comp_id": None, "auth_asym_id": None}, {"auth": None}),
+        case("no auth_seq_id item (the dictionary does not require it)", "absent", {"auth_seq_id": None}, {"auth": None}),
+        case("no pdbx_PDB_model_num item", "optional", {"pdbx_PDB_model_num": None}, {"model": 1}),
+        case("negative label_seq_id and author number 0", "numbers", {"label_seq_id": "-3", "auth_seq_id": "0"}, {"label": ("ResidueLabel", "AA", -3, "G"), "auth": ("ResidueAuth", "B", 0, "C", "GTP")}),
+        case("neither a complete label nor a complete author identity", "skip", {"label_seq_id": ".", "auth_comp_id": None}, None),
+    ]
+
+
+def check_cif_eval(chk) -> bool:
+    """parser.parse_cif interpreted on one atom_site row per class (the mmcif reader is a stub handing out the category as rows of
+    strings, as the library does).  Rules: cif-items, cif-atom-record, null-markers, int-parsing, cif-row-skip, reader-result."""
+    repo = chk.repo
+    fi = repo.func(P, "parse_cif")
+    atom_fields = dataclass_fields(repo, "tertiary", "Atom")
+    filtered: List[int] = []
+    from sa.fragment import coverage
+
+    def run(rows: List[Dict[str, str]]):
+        attrs: List[str] = []
+        for r in rows:
+            for k in r:
+                if k not in attrs:
+                    attrs.append(k)
+        cat = _Category(attrs, [[r.get(a, "?") for a in attrs] for r in rows])
+        reader = Obj("io_adapter", readFile=lambda *a, **k: [_Container({"atom_site": cat})])
+        env: Dict[str, Any] = {
+            "IoAdapterPy": lambda *a, **k: reader,
+            "IoAdapterCore": lambda *a, **k: reader,
+            "Atom": lambda *a: ("Atom",) + tuple(a),
+            "ResidueAuth": lambda *a: ("ResidueAuth",) + tuple(a),
+            "ResidueLabel": lambda *a: ("ResidueLabel",) + tuple(a),
+            "filter_clashing_atoms": lambda atoms, *a: (filtered.append(len(atoms)), list(atoms))[1],
+        }
+        names = {"try_parse_int"} | {g.node.name for g in new_helpers(repo, P)}
+        env.update(module_callables(repo, P, names=names, outer=env))
+        call = func_callable(repo, P, fi.node, env, max_steps=20000)
+        f = Lines([])
+        f.name = "/nonexistent/representative.cif"
+        res = call(f)
+        atoms = res[0] if isinstance(res, tuple) else res
+        out = []
+        for a in atoms:
+            if not (isinstance(a, tuple) and a and a[0] == "Atom" and len(a) == len(atom_fields) + 1):
+                raise Unknown("parse_cif does not return Atom(...) records")
+            out.append(dict(zip(atom_fields, a[1:])))
+        return out, res
+
+    bad: Dict[str, List[str]] = {}
+    cases = cif_row_cases()
+    _cov = coverage()
+    cov = _cov.__enter__()
+    try:
+        for tag, fact, row, want in cases:
+            del filtered[:]
+            try:
+                got, res = run([row])
+            except Raised as ex:
+                bad.setdefault("absent" if fact == "absent" else ("skip" if want is not None else "raise"), []).append(f"{tag}: parse_cif raises {ex.name}")
+                continue
+            except Unknown:
+                raise
+            except Exception as ex:
+                bad.setdefault("absent" if fact == "absent" else ("skip" if want is not None else "raise"), []).append(f"{tag}: parse_cif raises {type(ex).__name__} ({str(ex)[:50]})")
+                continue
+            if want is None:
+                if got:
+                    bad.setdefault("skip", []).append(f"{tag}: an atom is built all the same")
+                continue
+            if len(got) != 1:
+                bad.setdefault("skip", []).append(f"{tag}: the row yields {len(got)} atoms instead of one")
+                continue
+            if filtered != [1] or not (isinstance(res, tuple) and len(res) == 4):
+                bad.setdefault("result", []).append(f"{tag}: the decoded atoms do not pass through filter_clashing_atoms exactly once into (atoms, modified, sequences, nucleic-acid table)")
+            diff = {k: (got[0].get(k, "<absent>"), v) for k, v in want.items() if got[0].get(k, "<absent>") != v or type(got[0].get(k)) is not type(v)}
+            if diff:
+                k0 = sorted(diff)[0]
+                bucket = "null" if fact == "null" else ("numbers" if fact == "numbers" or (k0 in ("label", "auth") and fact == "items" and isinstance(diff[k0][0], tuple) and isinstance(diff[k0][1], tuple) and [type(x) for x in diff[k0][0]] != [type(x) for x in diff[k0][1]]) else "items")
+                bad.setdefault(bucket, []).append(f"{tag}: " + "; ".join(f"{k} is read as {g!r}, the row says {w!r}" for k, (g, w) in sorted(diff.items())[:3]))
+        # two rows of two models: both come back, in file order
+        two, _ = run([dict(CIF_FULL, pdbx_PDB_model_num="1"), dict(CIF_FULL, pdbx_PDB_model_num="2", id="8")])
+        if [a.get("model") for a in two] != [1, 2]:
+            bad.setdefault("skip", []).append(f"two rows of models 1 and 2 come back as models {[a.get('model') for a in two]}")
+    except Unknown as ex:
+        chk.ok("cif-eval", fi.where, f"parse_cif is not evaluable on representative atom_site rows ({str(ex)[:80]}): the pinned-form rules decide")
+        return False
+    finally:
+        _cov.__exit__(None, None, None)
+    with evidence(chk, "cif-items", "cif-atom-record", "null-markers", "int-parsing", "cif-row-skip", "reader-result", "cif-absent-items"):
+        chk.expect(not bad.get("items"), "cif-items", fi.where, f"evaluated on {len(cases)} atom_site rows: chain, number, name, insertion code, model, atom name and coordinates come from their own mmCIF items; label and author identity are built when their three items are present", "an atom_site row is decoded wrongly: " + "; ".join(bad.get("items", [])[:2]), K(fi, "items"), found=bad.get("items", [])[:4])
+        chk.expect(not bad.get("items"), "cif-atom-record", fi.where, "evaluated: Atom(entity, label, auth, model, name, x, y, z, occupancy) with ResidueAuth(chain, number, insertion code, name)", "the Atom built from an atom_site row does not carry the row's values: " + "; ".join(bad.get("items", [])[:1]), K(fi, "atom-record"))
+        chk.expect(not bad.get("null"), "null-markers", fi.where, "evaluated: `?` and `.` in the insertion code and in the occupancy are both read as absent (None)", "an mmCIF null marker is taken as a value: " + "; ".join(bad.get("null", [])[:2]), K(fi, "null-eval"), found=bad.get("null", [])[:4])
+        chk.expect(not bad.get("numbers"), "int-parsing", fi.where, "evaluated: negative and zero residue numbers are read as integers", "residue numbers are read wrongly: " + "; ".join(bad.get("numbers", [])[:2]), K(fi, "numbers-eval"), found=bad.get("numbers", [])[:4])
+        chk.expect(not bad.get("skip") and not bad.get("raise"), "cif-row-skip", fi.where, "evaluated: every row with a label or an author identity yields exactly one atom (optional items may be absent), a row with neither is skipped, rows of several models all come back", "atom_site rows are lost or refused: " + "; ".join((bad.get("skip", []) + bad.get("raise", []))[:2]), K(fi, "row-skip"), found=(bad.get("skip", []) + bad.get("raise", []))[:4])
+        chk.expect(
+            not bad.get("absent"),
+            "cif-absent-items",
+            fi.where,
+            "evaluated: an atom_site category without the author items is read through its label identity",
+            "an atom_site category that lacks an optional item is not read: " + "; ".join(bad.get("absent", [])[:2]) + " - parse_cif looks the item up with a None default and hands the None to the integer conversion",
+            "parser:parse_cif:absent-author-items",
+            found=bad.get("absent", [])[:4],
+        )
+        chk.expect(not bad.get("result"), "reader-result", fi.where, "evaluated: all decoded atoms pass through the duplicate/clash filter once", "; ".join(bad.get("result", [])[:1]), K(fi, "result"))
+        report_silent_exits(chk, "cif-row-skip", [fi] + new_helpers(repo, P), cov, "atom_site rows", {"continue": "the row is skipped: an atom of the file is not among the atoms read", "break": "reading stops there: the rows that follow are not read", "return": "reading ends there"})
     return True
